@@ -129,6 +129,8 @@ func obtainModifiedEarlyResponse(
 		Headers:    earlyResponseAction.Headers,
 		Body:       earlyResponseAction.Body,
 		Time:       onRequest.Time,
+
+		FromGateway: true,
 	}
 
 	respRunResult, err := getOnResponseRunResult(
